@@ -508,7 +508,7 @@ func c15Configs(thorough bool) []c15Config {
 func c15Run(r *core.Run) {
 	r.SetBudget(75 * time.Second)
 	if r.Thorough() {
-		r.SetBudget(10 * time.Minute)
+		r.SetBudget(20 * time.Minute)
 	}
 	cfgs := c15Configs(r.Thorough())
 	// thorough: every request sequence of up to three requests over {panicking, normal, panicking with the other kind}
